@@ -180,11 +180,17 @@ static const std::vector<std::string> &vocab() {
 
 static std::string gen_text(Tape &t, Result &r) {
   std::string s;
+  if (t.chance(1, 40)) {  // line numbers beyond 16 bits
+    r.cls("gen:more-than-65535-lines");
+    s.assign((size_t)(65530 + t.pick(20)), '\n');
+  }
   switch (t.weighted({3, 3, 4, 2})) {
     case 0: {  // significant characters
       r.cls("gen:significant-chars");
       int n = t.range(0, 40);
-      for (int i = 0; i < n; i++) s.push_back(SIG_CHARS[t.pick(sizeof SIG_CHARS)]);
+      std::string body;
+      for (int i = 0; i < n; i++) body.push_back(SIG_CHARS[t.pick(sizeof SIG_CHARS)]);
+      s += body;
       break;
     }
     case 1: {  // vocabulary joined by separators (or nothing)
@@ -219,7 +225,7 @@ static std::string gen_text(Tape &t, Result &r) {
   return s;
 }
 
-static const char *FNAMES[] = {"m", "a", "b", "c", "dir/x.theo"};
+static const std::string FNAMES[] = {"m", "a", "b", std::string("m\0x", 3), "dir/x.theo"};
 
 static void gen_files(Tape &t, Result &r, Files &files, std::string &main) {
   int nfiles = 1 + (int)t.weighted({5, 3, 2, 1});
@@ -458,12 +464,22 @@ static void enum_c15(Runner &run, int shard, int nshards, const std::string &tie
 
 static void prop_c15(Tape &t, Result &r) {
   int nfiles = t.range(1, 8);
+  bool chain = t.chance(1, 10);  // a deep chain: more than 32 files open at once
+  if (chain) nfiles = 33 + (int)t.pick(13);
   std::vector<std::string> names;
-  for (int i = 0; i < nfiles; i++) names.push_back("g" + std::to_string(i));
+  bool nul_names = t.chance(1, 8);
+  for (int i = 0; i < nfiles; i++)
+    names.push_back(nul_names ? (i == 0 ? std::string("g") : std::string("g\0", 2) + std::to_string(i)) : "g" + std::to_string(i));
+  if (nul_names) r.cls("names-agreeing-up-to-a-NUL");
   Files files;
   for (int f = 0; f < nfiles; f++) {
     int nd = (int)t.weighted({2, 4, 3, 2, 1});
     std::string b = "m" + std::to_string(f) + "a ";
+    if (chain) {
+      if (f + 1 < nfiles) b += "include \"" + names[(size_t)f + 1] + "\" ";
+      nd = t.chance(1, 6) ? 1 : 0;
+      r.cls("deep-chain(>32-files)");
+    }
     for (int k = 0; k < nd; k++) {
       switch (t.weighted({10, 2, 1, 1})) {
         case 0: b += "include \"" + names[t.pick((unsigned)nfiles)] + "\" "; break;
